@@ -5,7 +5,7 @@
    command,client,util}.py on the tree with the F22/F23/F25 fixes).
    [limit] is the StreamReader line limit (2**16 in the code; any value here). *)
 From Coq Require Import List NArith Bool.
-From Wpull Require Import Model.FtpConn Model.Ftp Proofs.FtpProofs.
+From Wpull Require Import Model.FtpConn Model.Ftp Proofs.FtpProofs Proofs.FtpSeqProofs.
 Import ListNotations.
 Open Scope N_scope.
 
@@ -92,6 +92,69 @@ Theorem C17_complete_only_after_226 :
 Proof. exact visit_complete_only_after_226. Qed.
 Print Assumptions C17_complete_only_after_226.
 
+(* ... and this does not depend on how the two streams are cut or interleaved:
+   two runs of the same visit whose control connections carry the same bytes and
+   whose data connections carry the same bytes - whatever is already buffered,
+   whatever the two segmentation oracles of each, whatever the two arrival
+   schedules - end the same way (same result or same error), with the same
+   sequence of control events (commands, replies, restart, data-open, data EOF,
+   close: so the 226 is read after the data EOF in both or in neither), the same
+   data bytes delivered, and the same bytes left unread. *)
+Theorem C17_interleaving_independent :
+  forall limit q fresh cached s1 s2 s1' s2' r1 r2,
+    stream (s_ctrl s1) = stream (s_ctrl s2) ->
+    stream (s_data s1) = stream (s_data s2) ->
+    s_tr s1 = s_tr s2 ->
+    visit limit q fresh cached s1 = (s1', r1) ->
+    visit limit q fresh cached s2 = (s2', r2) ->
+    r1 = r2
+    /\ control_of (s_tr s1') = control_of (s_tr s2')
+    /\ data_of (s_tr s1') = data_of (s_tr s2')
+    /\ stream (s_ctrl s1') = stream (s_ctrl s2')
+    /\ stream (s_data s1') = stream (s_data s2').
+Proof. exact visit_interleaving_independent. Qed.
+Print Assumptions C17_interleaving_independent.
+
+(* (a'), the whole command sequence.  For every request, server, segmentation and
+   arrival schedule: the commands written during a visit are, in order, an
+   initial part [W] of the session plan - [USER u] [PASS p] (nlogin of the two;
+   none exactly when the cached login of a reused connection matches), then for a
+   file SIZE path, REST offset (exactly when a non-zero restart offset is
+   requested), TYPE I, PASV, RETR path, for a listing TYPE I, PASV, MLSD path and
+   possibly LIST path - where u / p / path are the decoded URL / option values
+   and every written line is NAME SP utf-8(argument) CRLF of its plan entry; a
+   visit that reports a complete transfer has written the whole plan. *)
+Theorem C17_command_sequence :
+  forall limit q fresh cached s s' r,
+    visit limit q fresh cached s = (s', r) ->
+    exists (W : list cmd) (bs : list (list N)) (nlogin : nat) (fallback : bool),
+      writes_of (s_tr s') = writes_of (s_tr s) ++ bs
+      /\ Forall2 wire_of W bs
+      /\ (exists R, session_plan q nlogin fallback = W ++ R)
+      /\ (forall a, r = Ok a -> W = session_plan q nlogin fallback)
+      /\ (nlogin <= 2)%nat
+      /\ (nlogin = 0%nat <-> cache_hit q (if fresh then None else cached) = true)
+      /\ (fallback = true -> q_listing q = true).
+Proof. exact visit_command_sequence_closed. Qed.
+Print Assumptions C17_command_sequence.
+
+(* restart: the response carries a restart offset n only for a file request that
+   asked for exactly that non-zero offset, and then the trace contains, adjacent
+   and exactly once, REST <decimal digits of n> CRLF, the reply 350, the
+   acceptance; the digits denote n. *)
+Theorem C17_restart_offset :
+  forall limit q fresh cached ctrl data net s' r n,
+    visit limit q fresh cached (mkSess ctrl data [] net) = (s', r) ->
+    In (EvRestart n) (s_tr s') ->
+    q_listing q = false /\ q_restart q = Some n /\ n <> 0
+    /\ undec (dec n) = n /\ Forall (fun d => is_digit d = true) (dec n)
+    /\ exists t1 b t2,
+         s_tr s' = t1 ++ [EvWrite b; EvReply 350; EvRestart n] ++ t2
+         /\ wire_of (REST, dec n) b
+         /\ Forall no_restart t1 /\ Forall no_restart t2.
+Proof. exact visit_restart_closed. Qed.
+Print Assumptions C17_restart_offset.
+
 (* ---- non-vacuity ---- *)
 Definition bytes_ok : list N :=      (* 220 hi / 331 pw / 230 in / 213 5 / 200 ok / 227 (1,2,3,4,5,6) / 150 go / 226 done *)
   [50;50;48;32;104;105;13;10; 51;51;49;32;112;119;13;10; 50;51;48;32;105;110;13;10;
@@ -141,3 +204,27 @@ Proof.
     repeat split; repeat constructor; try discriminate; try (exists [97]; reflexivity).
   - vm_compute. repeat split.
 Qed.
+
+(* the same visit under two different segmentations / arrival schedules: /a with
+   restart offset 1234 on a server that accepts REST; both complete, both have
+   the plan USER PASS SIZE REST TYPE PASV RETR on the wire, REST 1234 accepted *)
+Definition bytes_rest : list N :=   (* 220 hi / 331 pw / 230 in / 213 5 / 350 ok / 200 ok / 227 (1,2,3,4,5,6) / 150 go / 226 done *)
+  [50;50;48;32;104;105;13;10; 51;51;49;32;112;119;13;10; 50;51;48;32;105;110;13;10;
+   50;49;51;32;53;13;10; 51;53;48;32;111;107;13;10; 50;48;48;32;111;107;13;10;
+   50;50;55;32;40;49;44;50;44;51;44;52;44;53;44;54;41;13;10;
+   49;53;48;32;103;111;13;10; 50;50;54;32;100;111;110;101;13;10].
+Definition q_rest : request := mkReq [] [] None None [47; 97] (Some 1234) false.
+Example C17_nonvacuous_sequence :
+  let '(s1, r1) := visit 65536 q_rest true None
+                     (mkSess (mkConn [] bytes_rest [2; 0; 5]%nat) (mkConn [] [104; 101; 108; 108; 111] [1]%nat) [] []) in
+  let '(s2, r2) := visit 65536 q_rest true None
+                     (mkSess (mkConn (firstn 9 bytes_rest) (skipn 9 bytes_rest) [40]%nat) (mkConn [104] [101; 108; 108; 111] []) []
+                             [(200, 0); (0, 2)]%nat) in
+  r1 = Ok (226, [100; 111; 110; 101]) /\ r2 = r1
+  /\ lists_eqb event_eqb (s_tr s1) (s_tr s2) = false        (* the chunking of the data differs *)
+  /\ control_of (s_tr s1) = control_of (s_tr s2)
+  /\ data_of (s_tr s1) = [104; 101; 108; 108; 111]
+  /\ existsb (event_eqb (EvRestart 1234)) (s_tr s1) = true
+  /\ map (fun c : cmd => fst c ++ 32 :: snd c ++ [13; 10]) (session_plan q_rest 2 false) = writes_of (s_tr s1)
+  /\ dec 1234 = [49; 50; 51; 52].
+Proof. vm_compute. repeat split; reflexivity. Qed.
